@@ -150,6 +150,43 @@ func runAKAHistory(hi int, h hmap) {
 			if e := e2; e != nil || !bytes.Equal(r2, rres) || !bytes.Equal(c2, rck) || !bytes.Equal(i2, rik) || !bytes.Equal(a2, rak) || !bytes.Equal(s2, raks) {
 				fail(oi, "aka.f2345", "F2345", "f2 %x f3 %x f4 %x f5 %x f5* %x (err %v), TS 35.206 gives %x %x %x %x %x", r2, c2, i2, a2, s2, e, rres, rck, rik, rak, raks)
 			}
+			// each function on its own: the outputs are optional (nil = not wanted), and what is asked
+			// for must not depend on what else is asked for
+			func() {
+				mask := (oi*5+hi*3)%31 + 1
+				defer func() {
+					if p := recover(); p != nil {
+						fail(oi, "aka.panic", "F2345", "panic when asked for the outputs %05b (f2 f3 f4 f5 f5*) only: %v", mask, p)
+						ins = ins[:0]
+					}
+				}()
+				want := [][]byte{rres, rck, rik, rak, raks}
+				out := make([][]byte, 5)
+				for b := range out {
+					if mask&(1<<uint(b)) != 0 {
+						out[b] = make([]byte, len(want[b]))
+					}
+				}
+				e := milenage.F2345(in("opc", opc), in("k", k), in("rnd", rnd), out[0], out[1], out[2], out[3], out[4])
+				checkIns(oi, "F2345")
+				for b := range out {
+					if out[b] != nil && (e != nil || !bytes.Equal(out[b], want[b])) {
+						fail(oi, "aka.f2345-subset", "F2345", "asked for the outputs %05b (f2 f3 f4 f5 f5*) only: output %d is %x (err %v), TS 35.206 gives %x", mask, b, out[b], e, want[b])
+					}
+				}
+				var oa, om []byte
+				if mask&1 != 0 {
+					oa = make([]byte, 8)
+				}
+				if mask&2 != 0 || oa == nil {
+					om = make([]byte, 8)
+				}
+				e = milenage.F1(in("opc", opc), in("k", k), in("rnd", rnd), in("sqn", sqnHE), in("amf", amf), oa, om)
+				checkIns(oi, "F1")
+				if e != nil || (oa != nil && !bytes.Equal(oa, rma)) || (om != nil && !bytes.Equal(om, rms)) {
+					fail(oi, "aka.f1-subset", "F1", "f1 %x f1* %x (err %v) when only one is asked for, TS 35.206 gives %x %x", oa, om, e, rma, rms)
+				}
+			}()
 			ch = challenge{rnd, rautn, append([]byte{}, sqnHE...)}
 			sent = append(sent, ch)
 		case "replay":
